@@ -637,7 +637,7 @@ func genTarget(r *core.Rand) string {
 		b.WriteString("/")
 		seg := segs[r.Intn(len(segs))]
 		if r.Chance(1, 8) { // decorations a path segment may legally carry: parameters, odd separators, encoded ones
-			seg += r.Pick(";", ";v=2", ";x=1;y", "%3bp", " ", "%20", "%00", "\\", "%5c..", "?", "#")
+			seg += r.Pick(";", ";v=2", ";x=1;y", "%3bp", " ", "%20", "\\", "%5c..", "?", "#")
 		}
 		b.WriteString(seg)
 	}
